@@ -289,7 +289,8 @@ def search(rng, tier, broken, corr):
                     "analysis of the same code gives the same issues; every issue line is within the source as CPython "
                     "numbers it (+ line offset); a failed analysis attaches exactly one system feedback; and - for the "
                     "introductory subset (well-typed call of every documented builtin/method/stdlib function, generated "
-                    "CS1 programs, the student programs in pedal's tests) - the analysis completes. Inputs: those, plus "
+                    "CS1 programs, 70 hand-written CS1 programs and random concatenations of them, the student programs in pedal's "
+                    "tests) - the analysis completes. Inputs: those, plus "
                     "arbitrary-grammar programs over every statement/expression/pattern kind, the repository's own .py "
                     "files, AST-mutated/recombined corpus programs, CR/CRLF/FF/U+2028 variants, non-ASCII identifiers, "
                     "non-default main file, bare tifa_analysis(), section histories, A-B-A histories",
@@ -340,6 +341,10 @@ def search(rng, tier, broken, corr):
             consider(code, True, "builtin-call %s/%s" % (t, n))
     for code in snippets:
         consider(code, True, "test-snippet")
+    for code in tw.CS1_PROGRAMS:
+        consider(code, True, "cs1-program")
+    for i in range(60 * mult):
+        consider(tw.gen_cs1_mix(rng), True, "cs1-mix")
     for i in range(250 * mult):
         consider(tw.gen_intro(rng), True, "intro")
     for i in range(250 * mult):
